@@ -483,6 +483,10 @@ func (in *Interp) vector(m []uint64) [][2]interface{} {
 			continue
 		}
 		v := smt.Eval(nd.T, m, nil)
+		if nd.T.W <= 8 {
+			out = append(out, [2]interface{}{nd.Name, int64(v)})
+			continue
+		}
 		out = append(out, [2]interface{}{nd.Name, smt.SignExt(v, nd.T.W)})
 	}
 	return out
